@@ -23,10 +23,11 @@ RowRefines(r) ==
 
 PairOK(p) ==
   /\ p.rt_ppt <= RoundingPpt          \* u -> v -> u gives back the value up to rounding
-  /\ p.same_exact                     \* u -> u returns the value itself
+  /\ p.same_exact                     \* u -> u returns the value itself (float, list, tuple, numpy array, exponent-list spelling)
   /\ p.inversions = 0                 \* no two amounts of a sorted list are ever swapped
   /\ p.spans                          \* ... and the extremes stay strictly ordered (the map is not constant)
   /\ p.path_ppt <= RoundingPpt        \* u -> w directly = u -> v -> w
+  /\ p.spell_ppt <= RoundingPpt       \* [(u, 1)] -> [(w, 1)] is the conversion u -> w (negative amounts and offsets included)
 
 Trace == ndJsonDeserialize(IOEnv.TRACE_FILE)
 VARIABLE l
